@@ -143,8 +143,15 @@ class CVShouldAnalyze:
 
 
 # ---- rules whose dispatch is proved elsewhere with the exact value (other languages => []): they carry C15 too
+# ... and the orchestrator's rule loop: "configuring other linters never changes X's findings" rests on its clause that the
+# result is the concatenation over ALL rules (contracts/c10_orchestrator.py) and on the containment of a failing rule
+# (contracts/c11_containment.py: a rule that raises anything but ValueError contributes [] and nothing else changes)
+from contracts import c10_orchestrator, c11_containment as _c11  # noqa: E402,F401
+
 for _t in (L + "srp/linter.py::SRPRule._dispatch_by_language", L + "srp/linter.py::SRPRule.check",
-           "src/linters/dry/file_analyzer.py::FileAnalyzer.analyze"):
+           "src/linters/dry/file_analyzer.py::FileAnalyzer.analyze",
+           "src/orchestrator/core.py::Orchestrator._execute_rules", "src/orchestrator/core.py::Orchestrator._safe_check_rule",
+           "src/orchestrator/core.py::Orchestrator._safe_check_rule~containment"):
     _c = _api.REGISTRY.get(_t)
     if _c is not None and "C15" not in _c.props:
         _c.props.append("C15")
